@@ -10,19 +10,19 @@ STATUS = [
  # id, theorems (what is proved for all inputs), tie, what is NOT a theorem
  ('C01', "LUTs = primitive functions; both 2-valued dispatch copies = LUT per lane; primitive selection; opcode injectivity; lane lifting; **build_ops_solution** (for every wf, comb.-acyclic netlist and stimulus the op list SimOps builds, executed gate by gate in any value domain, satisfies every node's equation), solution_unique; **end to end for all four c_reuse x strip_forks combinations** down to the compared model: logicsim_model_correct / sim_case2_correct (the list-memory model that is compared with the real LogicSim captures the unique gate-by-gate solution at every data line); **k cycles**: cycles_are_iter_sem, cycles_model_correct (memory carried over between cycles), cycle_next_state, cycles_no_data_line", 'T (SimTables, LogicSimDispatch) + C (SimOps.build, LogicSim s_to_c/c_prop/c_to_s/cycle: ops, levels, c_locs, s[0], s[1] after k cycles; line-level line_cycles per lane) + per-case evaluation of solution_b, certificates, hyps_all_b; targeted zero-slot-liveness circuits', 'circuits outside gates_known / forks_ok (output-less gates, unknown kinds): per-case certificate only'),
  ('C02', '4-/8-valued dispatch (plain and callback) = documented operator composition on all 8^4/4^4 tuples; X-soundness, init/final projection, Boolean restriction per primitive and for every op list and stimulus (logical relation); gate_by_gate, end_to_end_default and logicsim_model_correct (compared model sim_case8 = capture of the unique multi-valued solution, all options)', 'T + C (LogicSim m=4/8 end to end) + single-gate exhaustive sweep (every kind x all operand tuples)', '-'),
- ('C03', 'per gate evaluation (any LUT/operands/delays>=0/capacity>=4): termination, final value by parity (also under overflow), initial value, well-formedness; **circuit level**: for any op list every signal starts/ends at the Boolean evaluation of initial/final values; **flat memory**: flat_refines (c_prop on the flat waveform memory = line-level wexec / wacc under the region certificate), regions_check_sound', 'C (whole waveform memory, abuf, s[3..10] per lane; line-level wexec vs every tracked region; strip_forks in 30% of the cases)', 'flat memory with c_reuse / strip_forks (correspondence); float rounding off the integer grid'),
+ ('C03', 'per gate evaluation (any LUT/operands/delays>=0/capacity>=4): termination, final value by parity (also under overflow), initial value, well-formedness; **circuit level**: for any op list every signal starts/ends at the Boolean evaluation of initial/final values; **flat memory**: flat_refines (c_prop on the flat waveform memory = line-level wexec / wacc under the region certificate), regions_check_sound; **memory level, all four option combinations** (round 3): build_regions_all (the region certificate holds for every build() result: derived from the allocator invariant), wavesim_model_alias / _nostrip / **wavesim_model_correct** (the compared model wsim_case is total and captures the unstripped line-level waveform at every data line; strip_forks under zero fork-input delay + monotone stems), wavesim_model_settles, wglue_hyps_check_sound', 'C (whole waveform memory, abuf, s[3..10] per lane; line-level wexec vs every tracked region; strip_forks in 30% of the cases; prediction of wavesim_model_correct vs s[3..10] / abuf inside the proved domain) + used-simulator rounds', 'abuf under strip_forks only through the alias run; float rounding off the integer grid'),
  ('C04', 'per gate: emit-is-sum, shift and scale equivariance (any k>0), strict monotonicity for polarity-free delays; **circuit level** for any op list: STA window, circuit_shift / circuit_scale (no side condition) with rerun forms, circuit_mono', 'C + line-level C + STA/shift/scale/monotonicity/emit-sum oracle + single-gate stress', '-'),
- ('C05', 'hazard soundness of the 8-valued algebra per primitive; no_change_no_edge per gate; **circuit level**: logic8_predicts_wave for any op list', 'T + C (both simulators) + small-circuit stress', 'memory level as C03'),
- ('C06', 'memory level, all netlists, any value domain: options_irrelevant_spec / options_irrelevant / c_reuse_irrelevant / end_to_end_reuse (every c_reuse x strip_forks combination delivers the unstripped line-level value at every observed slot), c_reuse_same_interface; strip_forks_irrelevant (line level) also over k cycles; **timing level**: buf_zero_delay_identity (+ overflow case, + refuted for non-monotone input), wave_strip_forks_irrelevant (monotone stems) and _polfree, wave_strip_nonmonotone_refuted (= D26), dataset_selection[_lanes]; launcher covers each in-range instance exactly once; lane independence; release order irrelevant', 'differential execution over all option/lane/code-path pairs incl. repeated propagation, dataset modes, 33..65 lanes over two cycles; line-level wexec_alias / wexec_sel vs real memory; Model/Launch.v vs the real MockCuda thread sequence; known finding D26', 'CPU vs GPU kernel bodies (differential); more lanes / lane permutation / sims=k at timing level (differential; the model is per lane)'),
+ ('C05', 'hazard soundness of the 8-valued algebra per primitive; no_change_no_edge per gate; **circuit level**: logic8_predicts_wave for any op list', 'T + C (both simulators) + small-circuit stress + directed pulse-gate stream; memory level: wavesim_model_predicted (all option combinations)', '-'),
+ ('C06', 'memory level, all netlists, any value domain: options_irrelevant_spec / options_irrelevant / c_reuse_irrelevant / end_to_end_reuse (every c_reuse x strip_forks combination delivers the unstripped line-level value at every observed slot), c_reuse_same_interface; strip_forks_irrelevant (line level) also over k cycles; **timing level**: buf_zero_delay_identity (+ overflow case, + refuted for non-monotone input), wave_strip_forks_irrelevant (monotone stems) and _polfree, wave_strip_nonmonotone_refuted (= D26), dataset_selection[_lanes]; **wavesim_options_irrelevant** (memory level: any two option combinations give the compared timing model the same captures); launcher covers each in-range instance exactly once; lane independence; release order irrelevant', 'differential execution over all option/lane/code-path pairs incl. repeated propagation, dataset modes, 33..65 lanes over two cycles; line-level wexec_alias / wexec_sel vs real memory; Model/Launch.v vs the real MockCuda thread sequence; known finding D26', 'CPU vs GPU kernel bodies (differential); more lanes / lane permutation / sims=k at timing level (differential; the model is per lane)'),
  ('C07', 'levels_valid (greedy levelisation of every SSA-topological op list is an independent partition); build_ops_ssa, build_ops_ssa_strip, build_levels_valid[_strip], build_sched_cert (every build() result under any option), build_stems_defined, stems_are_chain_heads; perm_level_sound (any order inside levels, same signals); threads once', 'C (SimOps) + certificates per case + permuted-schedule / permuted-thread execution + launcher correspondence', 'sub-kernel interleavings'),
  ('C08', 'allocator: invariant for all histories, alloc_fresh, free_live, live_disjoint, high_water, free_commute; map: map_check_sound, **build_passes_certificate[_reuse,_all]** (all wf acyclic netlists of known primitives, all capacity vectors, all four option combinations), build_total[_reuse,_all], side conditions necessary / checkable, non-vacuity witnesses (three signals sharing a location)', 'C (Heap after every step; SimOps) + certificates per case + liveness oracle + hyps_all_b per generated circuit', '-'),
  ('C09', 'CInv for the empty circuit and preserved by ALL TWELVE public operations incl. **substitute** and **resolve_tlib_cells** (weak invariant through the five phases; loop skips removed instances as the code does since 11c77ac); lifted to all histories (history_inv_all); io entries stay live; canon(copy)=canon; stats; cinv_b sound; necessity witnesses for the four shape preconditions on implementations; refutation witnesses for the two pre-fix defects', 'C (full canonical state after every step of random/wild/instance/witness histories) + independent invariant oracle with shrinking', 'implementation circuits violating the shape preconditions (API misuse); stats with dunder-named kinds'),
  ('C10', "view_wf / history_view_wf; copy_view / pickle_view and copy_solution / pickle_solution; csol <-> solution; **eliminate_function**; eliminate_s_names[_perm]; **eliminate_state_order_refuted** (= D29); eliminate_order_kept; **library clause** (C10Lib): for every cell definition of the five libraries resolve keeps consistency, io, names and computes the implementation's / datasheet function on ALL rows -- all pins connected, each single pin unconnected, no output connected; exceptions = D15/D21/D22, each excepted instance refuted", 'C (view / s_names / s_nodes after every history step; implementation circuits and resolved hosts of all 263 definitions vs real TechLib / resolve_tlib_cells) + differential truth tables; known findings D15, D21, D22, D29', 'semantic theorem for substitute on arbitrary (non-library) implementations'),
  ('C11', "range/part-select names, sized constants, concat, port positions / io order; **bench from TEXT** (lexer+parser = lark's language, round trip, language characterisation, wiring from text); **Verilog module passes 0-2**: module_consistent, module_ports, module_pin_in/_out/_pins_only, module_assign, module_outputs, module_branchforks[_sets] (+ name-clash witness = D33), library pin tables injective", 'C (transformer helpers; what `module` receives vs model on generated / probe / wild modules; bench text vs lark incl. malformed) + generator-owned netlists in both formats incl. star-run comments', 'Verilog lark grammar; elaborated circuit -> function for Verilog (oracle + C10 + C01)'),
- ('C12', 'every bp8/bp4/mv operator k=1..4 = documented algebra; formats agree; Boolean restriction and De Morgan (any arity on {0,1}, k<=4 on eight values); lane lifting', 'T (LogicOps) + exhaustive C', 'mv_* wrappers (broadcast, out=) differential'),
- ('C13', 'returned counts = edges of the stored waveform; overflow-mark rule; no overflow => exact; capture_summary; prefix lemma; **circuit level**: wacc_running / wacc_final[_ssa] (accumulated activity = weighted edge sums), acc_once_check_sound, ovf_reach[_clean], circuit_capture; flat_capture', 'C + line-level C (wacc vs abuf) + recount oracle with generator-owned a_ctrl + unlimited-capacity oracle', 'capture with sd > 0'),
- ('C14', '**text level**: parse_cfile (every rendering of a file is parsed to its names and entries), parse/print round trip, ignored text and skipped items irrelevant, entry_kept[_any] (every written delay entry reaches the DelayFile under its instance); cells_none_lost (+ refuted for the pinned code), iopath/interconnect slot characterisation, edge qualifiers, empty triples, dataset axis', 'C (lark raw tree vs parse_sdf on generated / mutated / malformed / probe texts; lexer probe; DelayFile contents, both arrays incl. exceptions) + ground-truth arrays', 'lark itself (behaviour on this grammar transcribed); float() beyond k/8 decimals'),
- ('C15', 'bp round trips (any shape), axis convention, render/parse tables (regenerated), pack/unpack for all dtypes, popcount', 'T (LogicTables) + C (numpy primitives) + oracle', 'numpy primitive semantics (assumptions validated by correspondence)'),
+ ('C12', 'every bp8/bp4/mv operator k=1..4 = documented algebra; formats agree; Boolean restriction and De Morgan (any arity on {0,1}, k<=4 on eight values); lane lifting; unary operators traced IN PLACE (unary_inplace); **array layer** (round 3): index/offset bijection, numpy broadcasting rule + exact failure condition, broadcast_index, wrapper_elementwise / _exact / _out / _not / _not_out / _junk_irrelevant (mv_not/and/or/xor on arrays of ANY shape, with and without out=), transition_exact / _elementwise / _out, elem_algebra (element functions = traced kernels), wrapper_broadcast_refuted (= D35, old code)', 'T (LogicOps, incl. in-place traces) + exhaustive C + C of the array model against numpy on random shapes (rank 0..5, length-0/1 axes, either operand stretched, incompatible shapes, out= right / wrong / positional)', 'dtypes other than uint8; kernels with more than two operands at array level; out= overlapping an operand (outside the property reading); numpy primitive semantics (assumptions validated by correspondence)'),
+ ('C13', 'returned counts = edges of the stored waveform; overflow-mark rule; no overflow => exact; capture_summary; prefix lemma; **circuit level**: wacc_running / wacc_final[_ssa] (accumulated activity = weighted edge sums), acc_once_check_sound, ovf_reach[_clean], circuit_capture; flat_capture; **memory level, all options**: wavesim_model_capture, wavesim_model_activity', 'C + line-level C (wacc vs abuf) + recount oracle with generator-owned a_ctrl (waveform read through the observed LINE, output slot must be its exact alias) + unlimited-capacity oracle + strip_forks in 30% of the cases + used-simulator rounds', 'capture with sd > 0'),
+ ('C14', '**text level**: parse_cfile (every rendering of a file is parsed to its names and entries), parse/print round trip, ignored text and skipped items irrelevant, entry_kept[_any] (every written delay entry reaches the DelayFile under its instance); cells_none_lost (+ refuted for the pinned code), iopath/interconnect slot characterisation, edge qualifiers, empty triples, dataset axis; name_whitespace_ends_name (the repaired lexer: every \\s character ends a name)', 'C (lark raw tree vs parse_sdf on generated / mutated / malformed / probe texts; lexer probe; DelayFile contents, both arrays incl. exceptions) + ground-truth arrays', 'lark itself (behaviour on this grammar transcribed); float() beyond k/8 decimals'),
+ ('C15', 'bp round trips (any shape), axis convention, render/parse tables (regenerated), pack/unpack for all dtypes, popcount; **any rank** (Model/NdArray.v): roundtrip_any_rank / _rank1 / _get, axis_convention_any_rank / _rank1, swapaxes_index, conv_low_rank', 'T (LogicTables) + C (numpy primitives; any-rank conversions on ranks 0..5 incl. length-0 axes, 0..9 planes) + oracle', 'numpy primitive semantics (assumptions validated by correspondence)'),
  ('C16', 'callback trace = op outputs in order; identity; upstream untouched; override = driven signal; callback dispatch copies = plain; **model_callback_correct** (the compared memory-level model with callback refines the op-list callback semantics for every build() result), model_override / identity / trace, sim_case8_cb_correct', 'T + C (call sequence + results) + cut-circuit oracle over option combinations', '-'),
  ('C17', 'Kahn: nodup, sources first, drivers first, complete (unconnected pins), levels, line order, reverse = mirror; **fan-in**: fanin_order, nodup, sound, complete_comb, exact_comb, unfold / comb_node / seq_node; prefix lookup lists integer keys in numeric order; wf_netlist_b/acyclic_b/acyclic_rev_b sound', 'C (exact sequences; _locs results) + graph/ground-truth oracles', 'regular-expression generality of _locs'),
  ('C18', '**text level**: exact accepted language (text_language, converse included), ignored blocks skipped iff balanced, layout / ignored statements irrelevant, parse/print round trip, chains / groups / calls as written; scan load/unload position with inversion parity, pi/po groups, interface = s_nodes, loc transition, per-pattern columns -- restated from TEXT; refutations for the pinned code', 'C (stil.parse vs parse_stil on generated / mutated / malformed / probe texts; patterns, maps, tests, responses, tests_loc) + ground truth', 'lark itself; the logic simulation inside tests_loc is an input of the model'),
